@@ -206,10 +206,13 @@ func (env *SpecEnv) binderSort(tn string) (*Sort, types.Type) {
 		return sortBool, types.Typ[types.Bool]
 	case "Real":
 		return sortReal, nil
-	case "u256":
-		return sortBV(256), nil
-	case "u512":
-		return sortBV(512), nil
+	case "u128", "u256", "u257", "u512":
+		if vc.mode == ModeMath {
+			return sortInt, nil
+		}
+		var n int
+		fmt.Sscanf(tn, "u%d", &n)
+		return sortBV(n), nil
 	case "string":
 		return sortStr, types.Typ[types.String]
 	case "Iface", "error":
@@ -949,6 +952,25 @@ func (env *SpecEnv) callExpr(e *SExpr) SVal {
 			as = append(as, env.termOrLoad(env.eval(a)))
 		}
 		rs := vc.smtFunSort(fn)
+		switch fn {
+		case "be256":
+			vc.needBE, rs = true, sortBV(256)
+		case "bitlen256":
+			vc.needBitLen, rs = true, sortBV(64)
+		case "exp256":
+			rs = sortBV(256)
+		case "select":
+			if len(as) == 2 && as[0].T != nil && as[0].T.K == SArray {
+				return SVal{T: tSelect(as[0], as[1])}
+			}
+		case "store":
+			if len(as) == 3 {
+				return SVal{T: tStore(as[0], as[1], as[2])}
+			}
+		}
+		if rs != nil && vc.smtFunSort(fn) == nil {
+			return SVal{T: mk(app(fn, as...), rs)}
+		}
 		if rs == nil {
 			env.fail("unknown SMT function %s (declare it with '//@ smt (define-fun ...)')", fn)
 		}
@@ -1012,7 +1034,13 @@ func (env *SpecEnv) callExpr(e *SExpr) SVal {
 	case "zext", "sext":
 		n := env.eval(e.Args[0])
 		x := env.eval(e.Args[1])
+		if x.Untyped != nil && vc.mode == ModeMath {
+			return SVal{T: intLit(x.Untyped)}
+		}
 		t := env.termOrLoad(x)
+		if vc.mode == ModeMath && t.T.K == SInt {
+			return SVal{T: t}
+		}
 		if n.Untyped == nil || t.T.K != SBV {
 			env.fail("%s(bits, bv)", name)
 		}
@@ -1040,6 +1068,16 @@ func (env *SpecEnv) callExpr(e *SExpr) SVal {
 	case "concat":
 		x, y := env.termOrLoad(env.eval(e.Args[0])), env.termOrLoad(env.eval(e.Args[1]))
 		return SVal{T: mk(app("concat", x, y), sortBV(x.T.Bits+y.T.Bits))}
+	case "low64":
+		// low 64 bits of a word
+		x := env.termOrLoad(env.eval(e.Args[0]))
+		if x.T.K == SBV {
+			if x.T.Bits == 64 {
+				return SVal{T: x, GoT: types.Typ[types.Uint64]}
+			}
+			return SVal{T: mk("((_ extract 63 0) "+x.S+")", sortBV(64)), GoT: types.Typ[types.Uint64]}
+		}
+		return SVal{T: mk(fmt.Sprintf("(mod %s %s)", x.S, pow2(64)), sortInt), GoT: types.Typ[types.Uint64]}
 	case "signed":
 		x := env.eval(e.Args[0])
 		t := env.termOrLoad(x)
@@ -1094,6 +1132,12 @@ func (env *SpecEnv) callExpr(e *SExpr) SVal {
 			env.fail("fresh() needs a pre-state")
 		}
 		return SVal{T: mk(fmt.Sprintf("(>= %s %s)", r.S, env.old.top.S), sortBool)}
+	case "flag":
+		// flag(IsProposal026): the fork flag read by common.IsProposal026()
+		if len(e.Args) != 1 || e.Args[0].Op != "id" {
+			env.fail("flag(Name)")
+		}
+		return SVal{T: vc.flagConst(e.Args[0].Name), GoT: types.Typ[types.Bool]}
 	case "unchanged":
 		// unchanged(s, lo, hi): elements lo..hi-1 of s hold the same values as in the pre-state
 		// (quantified over the absolute array position so that callers can instantiate it)
@@ -1306,6 +1350,20 @@ func (vc *VC) declareSpecFn(sf *SpecFn) {
 	kw := "define-fun"
 	if sf.Rec {
 		kw = "define-fun-rec"
+	}
+	if sf.Opaque && !vc.revealed[sf.Name] {
+		// opaque: uninterpreted unless the function under verification reveals it
+		var psorts []string
+		for _, p := range ps {
+			for _, one := range splitSexp(p) {
+				inner := splitSexp(one[1 : len(one)-1])
+				psorts = append(psorts, strings.Join(inner[1:], " "))
+			}
+		}
+		decl := fmt.Sprintf("(declare-fun %s (%s) %s)", smtIdent("spec!"+sf.Name), strings.Join(psorts, " "), rs.Name)
+		vc.specFnDecl = append(vc.specFnDecl, decl)
+		vc.opaqueDefs[decl] = fmt.Sprintf("(%s %s (%s) %s %s)", kw, smtIdent("spec!"+sf.Name), strings.Join(ps, " "), rs.Name, body.S)
+		return
 	}
 	vc.specFnDecl = append(vc.specFnDecl, fmt.Sprintf("(%s %s (%s) %s %s)", kw, smtIdent("spec!"+sf.Name), strings.Join(ps, " "), rs.Name, body.S))
 }
